@@ -409,3 +409,147 @@ func classifyC03(p *Plan, res *Result, rec *common.Rec) bool {
 	}
 	return nt
 }
+
+// ------------------------------------------------------------------------------------------------
+// C03 on the real clock: 1..8 concurrent senders, timing-free / lower-bound invariants on the
+// totally ordered outbound log (no reconnects in these plans: a single epoch).
+// ------------------------------------------------------------------------------------------------
+
+func oracleC03R(p *Plan, res *Result) *common.Fail {
+	evs := res.Events
+	r := int64(p.Cfg.ResendUs) * 1000
+	T := int64(p.Cfg.TimeoutUs) * 1000
+	type blk struct {
+		tag, seq int
+		first    int
+		firstT   int64
+		hex      string
+		n        int
+	}
+	var blocks []*blk
+	seenTag := map[int]bool{}
+	result := map[int]string{}
+	returned := map[int]bool{}
+	retT := map[int]int64{}
+	started := map[int]bool{}
+	for i, e := range evs {
+		switch {
+		case e.K == "send>":
+			started[e.Tag] = true
+		case e.K == "send<":
+			result[e.Tag], returned[e.Tag], retT[e.Tag] = e.Err, true, e.T
+		case e.K == "out" && e.Svc == "TunnelReq":
+			if len(blocks) > 0 && blocks[len(blocks)-1].tag == e.Tag {
+				b := blocks[len(blocks)-1]
+				if e.Hex != b.hex {
+					return failTrace(evs, i, "retransmission-differs", "retransmission of telegram %d differs from its first transmission:\n first %s\n this  %s", e.Tag, b.hex, e.Hex)
+				}
+				b.n++
+				if !p.Cfg.TCP && e.T < b.firstT+int64(b.n-1)*r {
+					return failTrace(evs, i, "resend-early", "transmission %d of telegram %d left %s after the first one; the resend interval is %s", b.n-1, e.Tag, ms(e.T-b.firstT), ms(r))
+				}
+				continue
+			}
+			if seenTag[e.Tag] {
+				return failTrace(evs, i, "interleaved", "a request for telegram %d left the socket after a request for telegram %d had been transmitted in between: two requests were unacknowledged at the same time",
+					e.Tag, blocks[len(blocks)-1].tag)
+			}
+			seenTag[e.Tag] = true
+			blocks = append(blocks, &blk{tag: e.Tag, seq: e.Seq, first: i, firstT: e.T, hex: e.Hex, n: 1})
+		}
+	}
+	for tag := range started {
+		if !returned[tag] {
+			return failTrace(evs, len(evs)-1, "send-never-returned", "Send(telegram %d) had not returned when every other lane had finished and the tunnel was closed", tag)
+		}
+	}
+	// the request of block k must not leave before the Send of block k-1 has been decided... (order only:
+	// the previous Send may log its return a little later, so only the sequence numbers are asserted)
+	sn := 0
+	for _, b := range blocks {
+		if p.Cfg.TCP {
+			if b.seq != 0 || b.n != 1 {
+				return failTrace(evs, b.first, "tcp-send", "TCP tunnel: telegram %d was transmitted %d times with sequence number %d", b.tag, b.n, b.seq)
+			}
+			continue
+		}
+		if b.seq != sn {
+			return failTrace(evs, b.first, "sequence-number", "telegram %d was transmitted with sequence number %d; %d acknowledged requests precede it, so it must be %d", b.tag, b.seq, sn, sn)
+		}
+		err := result[b.tag]
+		if err == "" || isRejectedErr(err) {
+			sn = (sn + 1) % 256
+		}
+		if isTimeoutErr(err) && retT[b.tag]-b.firstT < T {
+			return failTrace(evs, b.first, "timeout-early", "Send(telegram %d) reported a response timeout %s after its first transmission; the timeout is %s", b.tag, ms(retT[b.tag]-b.firstT), ms(T))
+		}
+	}
+	if p.Cfg.TCP {
+		return nil
+	}
+	// every success / rejection is covered by an injected matching acknowledgement not attributed before
+	type ackIn struct {
+		t       int64
+		seq, st int
+		used    bool
+	}
+	var acks []*ackIn
+	for _, e := range evs {
+		if e.K == "inj" && e.Svc == "TunnelRes" {
+			acks = append(acks, &ackIn{t: e.T, seq: e.Seq, st: e.St})
+		}
+	}
+	for _, b := range blocks {
+		err := result[b.tag]
+		if err != "" && !isRejectedErr(err) {
+			continue
+		}
+		ok := false
+		for _, a := range acks {
+			if !a.used && a.seq == b.seq && (a.st == 0) == (err == "") && a.t <= retT[b.tag] {
+				a.used, ok = true, true
+				break
+			}
+		}
+		if !ok {
+			return failTrace(evs, b.first, "result-without-ack", "Send(telegram %d, sequence number %d) returned %q but no acknowledgement with that number and a matching status had been handed to the client that was not already used by another Send", b.tag, b.seq, err)
+		}
+	}
+	return nil
+}
+
+func genPlanC03R(rt *rapid.T) *Plan {
+	c := Cfg{ResendUs: rapid.SampledFrom([]int{2000, 3000, 5000}).Draw(rt, "resend"), HeartbeatUs: 3_600_000_000}
+	c.TimeoutUs = c.ResendUs * rapid.IntRange(3, 12).Draw(rt, "timeout-mult")
+	c.TCP = rapid.IntRange(0, 9).Draw(rt, "tcp") == 0
+	p := &Plan{Cfg: c, DefConn: okFate(300), DefHb: okFate(200), DefAck: okFate(60), DefDisc: okFate(300)}
+	lanes := rapid.IntRange(1, 8).Draw(rt, "senders")
+	total := rapid.IntRange(lanes, 40).Draw(rt, "sends")
+	if rapid.IntRange(0, 9).Draw(rt, "long") == 0 {
+		total = rapid.IntRange(260, 600).Draw(rt, "sends-long")
+	}
+	nf := rapid.IntRange(0, 12).Draw(rt, "faults")
+	for i := 0; i < nf; i++ {
+		f := Fate{DelayUs: rapid.IntRange(20, 2*c.ResendUs).Draw(rt, "ack-d")}
+		switch rapid.IntRange(0, 6).Draw(rt, "ack-kind") {
+		case 0, 1:
+			f.Act = "lose"
+		case 2:
+			f.Act, f.Dup, f.DupDelayUs = "ok", rapid.IntRange(1, 3).Draw(rt, "dup"), rapid.IntRange(1, c.ResendUs).Draw(rt, "dd")
+		case 3:
+			f.Act, f.Status = "status", rapid.IntRange(1, 255).Draw(rt, "st")
+		case 4:
+			f.Act, f.SeqDelta = "wrongseq", rapid.SampledFrom([]int{-1, 1, 2, 128}).Draw(rt, "sd")
+		case 5:
+			f.Act, f.Ch = "foreign", rapid.IntRange(0, 253).Draw(rt, "ch")
+		default:
+			f.Act = "ok"
+		}
+		p.Ack = append(p.Ack, f)
+	}
+	p.Senders = make([][]AppStep, lanes)
+	for i := 0; i < total; i++ {
+		p.Senders[i%lanes] = append(p.Senders[i%lanes], AppStep{AfterUs: rapid.SampledFrom([]int{0, 0, 0, 30, 400}).Draw(rt, "gap"), Tag: i + 1})
+	}
+	return p
+}
